@@ -33,6 +33,9 @@ type C04Scenario struct {
 	Cap    int64       `json:"cap"`
 	Prime  uint64      `json:"prime"`
 	Tasks  [][]lruOp   `json:"tasks"`
+	// Bulk > 0 (lru, tiny; one client): the cache first receives this many distinct keys of size 1; the client's operations then
+	// shrink the capacity or store values that push out more than a thousand entries at once
+	Bulk int `json:"bulk,omitempty"`
 }
 
 // ---- uniform face
@@ -391,6 +394,22 @@ func drawC04(rt *rapid.T) interface{} {
 	sc.Cap = rapid.SampledFrom([]int64{0, 1, 3, 8}).Draw(rt, "cap")
 	sc.Prime = 1
 	nkeys := 4
+	if !wide && hx.Rare(rt, hx.Pick(1500, 300), "bulk") {
+		sc.Bulk = rapid.SampledFrom([]int{1030, 1100, 1500, 2100}).Draw(rt, "bulkn")
+		sc.Cap = int64(sc.Bulk + rapid.SampledFrom([]int{-5, 0, 0, 7}).Draw(rt, "bulkcap"))
+		var ops []lruOp
+		n := rapid.IntRange(1, 8).Draw(rt, "bulkops")
+		for j := 0; j < n; j++ {
+			op := lruOp{Op: rapid.SampledFrom([]string{"setcap", "setcap", "set", "setrem", "setabs", "get", "del", "stats", "length", "size", "evictions", "keys"}).Draw(rt, "bop")}
+			op.Key = rapid.SampledFrom([]int{0, 1, 100, 101, 100 + sc.Bulk/2, 99 + sc.Bulk}).Draw(rt, "bkey")
+			op.ID = sc.Bulk + 1 + j
+			op.Sz = rapid.SampledFrom([]int{0, 1, 5, 9, 1025, 1030, sc.Bulk - 3, sc.Bulk, sc.Bulk + 20}).Draw(rt, "bsz")
+			ops = append(ops, op)
+		}
+		sc.Tasks = [][]lruOp{ops}
+		sc.Knobs = hx.DrawKnobs(rt, []int{10})
+		return sc
+	}
 	if wide {
 		sc.Prime = rapid.SampledFrom([]uint64{1, 2, 3, 7}).Draw(rt, "prime")
 		sc.Cap = rapid.SampledFrom([]int64{0, 2, 5, 1000000}).Draw(rt, "wcap")
@@ -459,6 +478,15 @@ func runC04(t *testing.T, sci interface{}, keepLog bool) *hx.Outcome {
 		case "tinywidex":
 			f = facadeTiny{tiny.NewWideXHashLRU(sc.Cap, remap.WithPrime(sc.Prime))}
 		}
+		for k := 0; k < sc.Bulk; k++ {
+			op := lruOp{Op: "set", Key: 100 + k, ID: k + 1, Sz: 1}
+			call := h.Invoke()
+			out := f.do(op)
+			h.Return(len(sc.Tasks)+1, call, op, out)
+		}
+		if sc.Bulk > 0 {
+			s.Count("cache-of-more-than-1024-entries")
+		}
 		var ts []*simrt.Task
 		for ti, ops := range sc.Tasks {
 			ti, ops := ti, ops
@@ -495,7 +523,7 @@ func runC04(t *testing.T, sci interface{}, keepLog bool) *hx.Outcome {
 			}
 		}
 	}
-	res := hx.RunSim(t, sc.Knobs.Config(keepLog, 60000), nil, main)
+	res := hx.RunSim(t, sc.Knobs.Config(keepLog, 60000+100*sc.Bulk), nil, main)
 	o := hx.FromResult(res)
 	if o.Class == "" && res.Stuck {
 		o.Class, o.Msg = "stuck", "tasks never finished: "+hx.Unfinished(res)
@@ -531,9 +559,9 @@ func TestC04(t *testing.T) {
 		Run:         runC04,
 		Real:        []string{"cache.LRUCache, cache/tiny.LRUCache, cache.WideLRUCache, tiny.WideLRUCache (simgen-transformed)", "remap (router, also used by the model for shard choice)", "container/list", "porcupine v1.3.0"},
 		Stubs:       []string{"sync (simsync.Mutex)", "goroutine scheduling (simrt)"},
-		Rule: "scenario = cache type x capacity x (wide: shard count) x 1-4 client programs over Set/SetIfAbsent/SetAndGetRemoved/Get/Peek/Exist/Delete/Clear/SetCapacity/Stats/Keys/Items with sizes in {0,1,2,5,9} (1 client: up to 60 ops = sequential statement) x scheduler knobs/tape; " +
+		Rule: "scenario = cache type x capacity x (wide: shard count) x 1-4 client programs over Set/SetIfAbsent/SetAndGetRemoved/Get/Peek/Exist/Delete/Clear/SetCapacity/Stats/Keys/Items with sizes in {0,1,2,5,9} (1 client: up to 60 ops = sequential statement; about 1 in 1500 single-cache scenarios (1 in 300 in the thorough tier): 1030-2100 entries first, then capacity changes and values that push out more than 1024 entries in one call) x scheduler knobs/tape; " +
 			"history + final Keys/Items/Stats checked with porcupine against an ideal LRU (one per shard for the wide variants); non-trivial = >=2 tasks and >=1 switch (or >=3 ops sequentially); distinct = distinct event-log hash",
-		Probes:      []string{"porcupine-ok"},
+		Probes:      []string{"porcupine-ok", "cache-of-more-than-1024-entries"},
 		Assumptions: []string{"wide variants: per-shard capacity is capacity/shards+1 as documented (repeats a formula of the implementation)", "tiny: every entry weighs 1; its SetAndGetRemoved on an existing key reports nothing removed"},
 	})
 }
